@@ -1145,6 +1145,7 @@ class Unit:
         self.lost_closures = {}   # fn -> closure selectors that matched nothing
         self.bare_closures = {}   # fn -> closures left without a contract (non-trivial bodies)
         self.bare_loops = {}      # fn -> number of loops without a template invariant
+        self.callees = {}         # fn -> names called in the body (as written in /repo)
         self.lost_required = {}   # fn -> required before/after anchors that found no statement
         self.lost_optional = {}   # fn -> optional before?/after? anchors that found no statement (their hints are missing)
         self.item_text = {}       # `kw Name` -> normalised text of every type definition the unit extracts
@@ -1635,6 +1636,13 @@ class Unit:
         # loops that carry no template invariant: after such a loop Verus knows nothing about what it modified
         self.bare_loops[qual] = sum(1 for li in range(1, len(loops) + 1) if li not in fs.loops)
         sgq = _sig(toks, bo + 1, be)
+        # names of the functions / methods / macros the body calls (lower-case identifiers in call position): a name that is new with
+        # respect to the reference tree and has no contract in this unit is a callee of unknown strength (rule vii of ./check)
+        self.callees[qual] = sorted({toks[j].text + ("!" if toks[sgq[x + 1]].text == "!" else "") for x, j in enumerate(sgq[:-1])
+                                     if toks[j].kind == "ident" and toks[j].text not in KEYWORDS and not toks[j].text[0].isupper()
+                                     and (toks[sgq[x + 1]].text == "(" or (toks[sgq[x + 1]].text == "!" and x + 2 < len(sgq) and toks[sgq[x + 2]].text in ("(", "[", "{")
+                                                                            and toks[sgq[x + 1]].pos == toks[j].pos + len(toks[j].text))
+                                          or (toks[sgq[x + 1]].text == ":" and x + 3 < len(sgq) and toks[sgq[x + 2]].text == ":" and toks[sgq[x + 3]].text == "<"))})
         self.strlit_patterns[qual] = sum(1 for x, j in enumerate(sgq[:-1]) if toks[j].kind == "str"
                                          and (toks[sgq[x + 1]].text == "|" or (toks[sgq[x + 1]].text == "=" and x + 2 < len(sgq) and toks[sgq[x + 2]].text == ">")))
         if not bare:
